@@ -377,8 +377,12 @@ func mkClause(text, file string, line int) (*Clause, error) {
 		cl.Label = m[1]
 		text = m[2]
 	}
-	if m := propTagRe.FindStringSubmatch(text); m != nil {
-		cl.Props = strings.Fields(strings.ReplaceAll(m[1], ",", " "))
+	for {
+		m := propTagRe.FindStringSubmatch(text)
+		if m == nil {
+			break
+		}
+		cl.Props = append(cl.Props, strings.Fields(strings.ReplaceAll(m[1], ",", " "))...)
 		text = m[2]
 	}
 	e, err := ParseSpec(text)
